@@ -105,6 +105,38 @@ def _fr(vals):
     return [Fraction(v) for v in vals]
 
 
+def _data(cfg):
+    """training optimum (16) far above the scripted trajectories, validation optimum 0: along a descending trajectory the
+    training loss rises while the validation loss falls, so the two argmins differ.  equal_val: a validation model with
+    exactly as many observations as the training model (a 50/50 split), still with different data."""
+    ytr = [16.0, 16.5, 15.5, 16.0]
+    yva = [0.25, -0.25, 0.5, -0.5] if cfg.get("equal_val") else [0.25, -0.25, 0.0]
+    return ytr, yva
+
+
+def indep_losses(cfg, upto):
+    """independent evaluation (fresh models, direct assignment, public Model.log_lik / log_prior / log_prob) of the
+    documented losses at the scripted positions 0..upto: training loss = -log_prob of the training model; validation loss =
+    -(n_train / n_validation * log_lik + log_prior) of the validation model (of the training model when there is none)"""
+    import jax.numpy as jnp
+    ytr, yva = _data(cfg)
+    mt = _build(cfg, ytr)
+    mv = _build(cfg, yva) if cfg["validation"] else None
+    scale = len(ytr) / len(yva) if cfg["validation"] else 1.0
+    lt, lv = [], []
+    for k in range(upto + 1):
+        for m in (mt, mv):
+            if m is None:
+                continue
+            for nm in cfg["params"]:
+                m.vars[nm].value = jnp.asarray([float(x) for x in stream(cfg, nm, k)], dtype=jnp.float32).reshape(tuple(cfg["shapes"][nm]))
+            m.update()
+        lt.append(-float(mt.log_prob))
+        mm = mv if mv is not None else mt
+        lv.append(-(scale * float(mm.log_lik) + float(mm.log_prior)))
+    return lt, lv
+
+
 def run_d(cfg):
     """one optim_flat run; returns cfg + observations (everything JSON-able except Fractions)"""
     import jax.numpy as jnp, numpy as np
@@ -113,9 +145,17 @@ def run_d(cfg):
     logging.getLogger("liesel").setLevel(logging.ERROR)
     # training optimum (16) far above the scripted trajectories, validation optimum 0: along a descending
     # trajectory the training loss rises while the validation loss falls, so the two argmins differ
-    ytr, yva = [16.0, 16.5, 15.5, 16.0], [0.25, -0.25, 0.0]
+    ytr, yva = _data(cfg)
     mtr, mva = _build(cfg, ytr), _build(cfg, yva)
-    st = Stopper(max_iter=cfg["max_iter"], patience=cfg["patience"], atol=float(Fraction(cfg["atol"])), rtol=float(Fraction(cfg["rtol"])))
+    if cfg.get("stopper_assigned"):
+        # a Stopper constructed with other values, the attributes assigned on the instance before use: optim_flat must
+        # follow the CURRENT values (cfg max_iter / patience / atol / rtol are the current ones)
+        st = Stopper(**{k: (int(Fraction(v)) if k in ("max_iter", "patience") else float(Fraction(v))) for k, v in cfg["stopper_constructed"].items()})
+        for name, v in cfg["stopper_assigned"]:
+            setattr(st, name, int(Fraction(v)) if name in ("max_iter", "patience") else float(Fraction(v)))
+        assert (st.max_iter, st.patience, Fraction(st.atol), Fraction(st.rtol)) == (cfg["max_iter"], cfg["patience"], Fraction(cfg["atol"]), Fraction(cfg["rtol"]))
+    else:
+        st = Stopper(max_iter=cfg["max_iter"], patience=cfg["patience"], atol=float(Fraction(cfg["atol"])), rtol=float(Fraction(cfg["rtol"])))
     script = {nm: jnp.asarray([[float(Fraction(x)) for x in row] for row in rows], dtype=jnp.float32).reshape((len(rows),) + tuple(cfg["shapes"][nm]))
               for nm, rows in cfg["script"].items()}
     obs = dict(cfg)
@@ -136,6 +176,11 @@ def run_d(cfg):
     obs["iteration"], obs["ibest"] = int(res.iteration), int(res.iteration_best)
     obs["loss_val"] = [None if math.isnan(v) else Fraction(v) for v in lv]
     obs["loss_train_nan"] = [bool(math.isnan(v)) for v in lt]
+    obs["loss_train"] = [None if math.isnan(v) else float(v) for v in lt]
+    try:
+        obs["indep_train"], obs["indep_val"] = indep_losses(cfg, min(obs["iteration"], len(next(iter(cfg["script"].values())))))
+    except Exception as e:                                   # noqa: BLE001
+        obs["indep_err"] = f"{type(e).__name__}: {e}"[:200]
     obs["position"] = {nm: _fr(_flat(v)) for nm, v in res.position.items()}
     obs["position_shapes"] = {nm: list(np.shape(v)) for nm, v in res.position.items()}
     ph = res.history.get("position", None)
@@ -183,17 +228,20 @@ def strata(ctx, rnd):
     F = Fraction
     cfgs = []
 
-    def add(names, shapes, mi, p, prune, validation, restore, save, mode, at=F(0), rt=F(0)):
+    def add(names, shapes, mi, p, prune, validation, restore, save, mode, at=F(0), rt=F(0), equal_val=False):
         cfgs.append(make_cfg(rnd, names, shapes, mi, p, at, rt, prune, validation, restore, save, mode))
+        cfgs[-1]["equal_val"] = bool(equal_val and validation)
 
-    add(["slope", "intercept"], [(), ()], 8, 2, False, True, True, True, "rebound")          # the classic
-    add(["w", "b", "m"], [(2,), (), (3,)], 8, 3, True, True, True, True, "rebound")
+    # equal_val: validation model with as many observations as the training model (n_train / n_validation == 1), other data
+    add(["slope", "intercept"], [(), ()], 8, 2, False, True, True, True, "rebound", equal_val=True)          # the classic
+    add(["w", "b", "m"], [(2,), (), (3,)], 8, 3, True, True, True, True, "rebound", equal_val=True)
     add(["theta", "Zeta"], [(2,), (2,)], 6, 2, True, False, True, True, "zigzag")
     add(["c", "a", "b"], [(), (), ()], 8, 2, False, False, True, True, "rebound")
-    add(["b0", "b"], [(), (2,)], 8, 2, False, True, False, True, "rebound")
+    add(["b0", "b"], [(), (2,)], 8, 2, False, True, False, True, "rebound", equal_val=True)
     add(["p1", "p", "p0"], [(2,), (2,), (2,)], 6, 2, True, True, False, False, "plateau", F(1, 4))
     add(["w", "b"], [(2,), (2,)], 6, 2, False, True, True, False, "descend")                 # AssertionError
     add(["a", "b", "c"], [(), (2,), ()], 6, 6, False, True, True, True, "descend")           # sorted control, p = max_iter
+    cfgs.append(cfg_assigned_stopper())
     n_more = 2 if ctx.quick else 40
     for _ in range(n_more):
         k = rnd.choice([2, 3])
@@ -216,8 +264,25 @@ def strata(ctx, rnd):
                 restore = False
         add(names, shapes, mi, p, rnd.random() < 0.5, rnd.random() < 0.7, restore, save,
             rnd.choice(["plateau", "rebound", "descend", "zigzag"]),
-            rnd.choice([F(0), F(1, 4), F(1)]), rnd.choice([F(0), F(0), F(1, 8)]))
+            rnd.choice([F(0), F(1, 4), F(1)]), rnd.choice([F(0), F(0), F(1, 8)]), equal_val=rnd.random() < 0.5)
     return cfgs
+
+
+def cfg_assigned_stopper():
+    """fixed stratum: Stopper(max_iter=30, patience=5) (atol, rtol defaults), then max_iter, patience, atol, rtol ASSIGNED on
+    the instance.  mean position 2 - k/4 (steps of 1/4 towards the validation optimum 0 and beyond), patience 2, atol 0,
+    rtol 1/8: the improvement never drops to 0 before the optimum is passed (iteration 9), but the RELATIVE improvement
+    falls below 1/8 at iteration 7 - the run must stop there, by the relative clause alone."""
+    F = Fraction
+    names, offs = ["slope", "intercept"], {"slope": F(1, 4), "intercept": F(-1, 4)}
+    mi = 14
+    base = [F(2) - F(k, 4) for k in range(1, mi + 3)]
+    return {"part": "D", "max_iter": mi, "patience": 2, "atol": "0", "rtol": "1/8", "prune": False, "validation": True,
+            "restore": True, "save": True, "mode": "assigned-stopper", "params": names, "shapes": {n: [] for n in names},
+            "init": {n: [str(F(2) + offs[n])] for n in names}, "script": {n: [[str(b + offs[n])] for b in base] for n in names},
+            "mean_offset": "0", "equal_val": False,
+            "stopper_constructed": {"max_iter": "30", "patience": "5"},
+            "stopper_assigned": [["rtol", "1/8"], ["atol", "0"], ["patience", "2"], ["max_iter", str(mi)]]}
 
 
 def part_d(ctx, rnd):
@@ -234,6 +299,9 @@ def part_d(ctx, rnd):
     ctx.hist("D.no_validation_model", sum(1 for c in cases if not c["validation"]))
     ctx.hist("D.save_position_history_false", sum(1 for c in cases if not c["save"]))
     ctx.hist("D.assertion_restore_without_history", sum(1 for c in cases if c["err"] == 1))
+    ctx.hist("D.validation_model_of_equal_size_other_data", sum(1 for c in cases if c.get("equal_val")))
+    ctx.hist("D.stopper_attributes_assigned_after_construction", sum(1 for c in cases if c.get("stopper_assigned")))
+    ctx.hist("D.stopped_by_relative_tolerance_only", sum(1 for c in ok if c.get("stopper_assigned") and c["iteration"] == 7))
     ctx.hist("D.best_before_last_iteration", sum(1 for c in ok if c["ibest"] < c["iteration"]))
     ctx.hist("D.early_stopped", sum(1 for c in ok if c["iteration"] < c["max_iter"] - 1))
     c0 = cases[0]
@@ -339,6 +407,27 @@ def oracle_d(c):
         return {"why": "save_position_history not honoured", "case": js}
     if ph is not None and set(ph) != set(names):
         return {"why": f"position history has the names {sorted(ph)}, asked for {sorted(names)}", "case": js}
+    if "indep_err" in c:
+        return {"why": "independent evaluation of the losses failed: " + c["indep_err"], "case": js}
+    tol = lambda x: 1e-4 * max(1.0, abs(x))                   # float32 jit against eager evaluation
+    what = "the validation model" if c["validation"] else "the training model (no validation model given)"
+    for k, want in enumerate(c["indep_val"]):
+        got = lv[k] if k < len(lv) else None
+        if got is None or abs(float(got) - want) > tol(want):
+            return {"why": (f"history['loss_validation'][{k}]={None if got is None else float(got):.6g} is not the validation loss: {what} "
+                            f"evaluated at the recorded position of iteration {k} gives {want:.6g}"), "case": js}
+    for k, want in enumerate(c["indep_train"]):
+        got = c["loss_train"][k] if k < len(c["loss_train"]) else None
+        if got is None or abs(got - want) > tol(want):
+            return {"why": (f"history['loss_train'][{k}]={got} is not the training loss: the training model evaluated at the recorded "
+                            f"position of iteration {k} gives {want:.6g}"), "case": js}
+    # iteration_best minimises the (independently evaluated) validation loss within the final patience window
+    lo = it - p + 1
+    if lo >= 0 and len(c["indep_val"]) > it and 0 <= ib <= it:
+        wmin = min(c["indep_val"][lo:it + 1])
+        if not (lo <= ib and c["indep_val"][ib] <= wmin + 2 * tol(wmin)):
+            return {"why": (f"iteration_best={ib} does not minimise the validation loss within the final patience window [{lo}, {it}]: "
+                            f"{what} gives {[round(x, 5) for x in c['indep_val'][lo:it + 1]]} there"), "case": js}
     if not base.borderline(_as_b(c)):
         lp = p if c["validation"] else mi
         first = next((i for i in range(len(known)) if base.py_rule(mi, lp, Fraction(c["atol"]), Fraction(c["rtol"]), i, known)), None)
@@ -392,7 +481,7 @@ def _s(v):
 
 
 CFG_KEYS = ("part", "max_iter", "patience", "atol", "rtol", "prune", "validation", "restore", "save", "mode", "params",
-            "shapes", "init", "script", "mean_offset")
+            "shapes", "init", "script", "mean_offset", "equal_val", "stopper_constructed", "stopper_assigned")
 
 
 def _js(c):
